@@ -11,5 +11,5 @@ mkdir -p .cache/ocaml .cache/run .cache/tmp evidence
 ( cd /repo && CARGO_TARGET_DIR=/verif/.cache/target-cli RUSTFLAGS="--cfg libninja_verif" cargo build --offline --bin libninja 2>&1 | tail -2 )
 # warm the compile layer: builds serde, serde_json, chrono, tokio and the stand-ins once
 mkdir -p .cache/run/warm && rm -rf .cache/run/warm/* && .cache/target/release/lnverif emit-crates --seed 1 --n 1 --out .cache/run/warm --shard 9 --profile safe >/dev/null 2>&1 && python3 tools/compile_crates.py .cache/run/warm --examples --warm | cut -c1-200 | tail -2; rm -rf .cache/run/warm
-python3 -c "import sys; sys.path.insert(0, '/verif'); from vlib import c20; c20.warm()"
+python3 -c "import sys; sys.path.insert(0, '/verif'); from vlib import c20, emitprops; c20.warm(); emitprops.exec_warm()"
 echo "setup done"
